@@ -1,21 +1,24 @@
 #!/bin/bash
 # mutant_matrix.sh [ids...] : for every seeded change under /verif/seeded, apply it to /repo, run the listed checks, revert.
 # Output: one line per (mutant, check): DETECTED / missed / inconclusive.  Never leaves /repo modified.
-cd /verif
+# MATRIX_REPO / MATRIX_VERIF (default /repo, /verif) let the matrix run on scratch worktrees: an interrupted run then never leaves /repo patched
+REPO=${MATRIX_REPO:-/repo}
+cd ${MATRIX_VERIF:-/verif}
+[ "$REPO" != /repo ] && export CXV_REPO=$REPO
 sel="$@"
 for d in seeded/*/; do
   id=$(basename $d)
   [ -n "$sel" ] && ! echo " $sel " | grep -q " $id " && continue
   checks=$(python3 -c "import json;print(' '.join(json.load(open('$d/meta.json'))['checks_to_run']))")
-  if ! git -C /repo diff --quiet; then echo "/repo dirty"; exit 9; fi
+  if ! git -C $REPO diff --quiet; then echo "/repo dirty"; exit 9; fi
   base=$(python3 -c "import json;print(json.load(open('$d/meta.json')).get('base_patch',''))")
-  if [ -n "$base" ]; then git -C /repo apply $PWD/seeded/$base/patch.diff || { echo "$id BASE-PATCH-DOES-NOT-APPLY"; git -C /repo checkout -- . ; git -C /repo clean -fdq -- src; continue; }; fi
-  if ! git -C /repo apply $PWD/$d/patch.diff; then echo "$id PATCH-DOES-NOT-APPLY"; git -C /repo checkout -- . ; git -C /repo clean -fdq -- src; continue; fi
+  if [ -n "$base" ]; then git -C $REPO apply $PWD/seeded/$base/patch.diff || { echo "$id BASE-PATCH-DOES-NOT-APPLY"; git -C $REPO checkout -- . ; git -C $REPO clean -fdq -- src; continue; }; fi
+  if ! git -C $REPO apply $PWD/$d/patch.diff; then echo "$id PATCH-DOES-NOT-APPLY"; git -C $REPO checkout -- . ; git -C $REPO clean -fdq -- src; continue; fi
   for c in $checks; do
     out=$(bin/check $c --tier quick 2>&1); rc=$?
     if [ $rc -eq 1 ]; then res=DETECTED; elif [ $rc -eq 0 ]; then res=missed; else res=inconclusive; fi
     nsig=2; [ -n "$base" ] && nsig=40
     echo "$id $c $res :: $(echo "$out" | grep -A1 VIOLATION | grep signature | head -$nsig | cut -c1-150 | tr '\n' ' ')"
   done
-  git -C /repo checkout -- . ; git -C /repo clean -fdq -- src
+  git -C $REPO checkout -- . ; git -C $REPO clean -fdq -- src
 done
